@@ -33,6 +33,7 @@ type probeResults struct {
 	PrimParsePostClearsCatch, PrimValPostClearsCatch                      bool
 	KeyBufGuard, NilProvGuard, UnexportedGuard, EmptySegGuard, MapConvert bool
 	CloneCopies                                                           bool
+	SliceDefaultDeep                                                      bool
 }
 
 type prNamedMap map[string]any
@@ -189,6 +190,23 @@ func runProbes() probeResults {
 			}
 		}
 		r.CloneCopies = ok
+	}
+	// --- Validate copies a nested slice Default deeply: an in-place write through the validated value
+	//     must not reach the schema's default (second use reads the same default) ------------------------
+	{
+		var seen []string
+		s := z.Slice(z.Slice(z.String())).Default([][]string{{"a", "b"}}).PostTransform(func(ptr any, ctx z.Ctx) error {
+			v := ptr.(*[][]string)
+			if len(*v) > 0 && len((*v)[0]) > 0 {
+				seen = append(seen, (*v)[0][0])
+				(*v)[0][0] = "MUTATED"
+			}
+			return nil
+		})
+		var a, b [][]string
+		s.Validate(&a)
+		s.Validate(&b)
+		r.SliceDefaultDeep = len(seen) == 2 && seen[0] == "a" && seen[1] == "a"
 	}
 	return r
 }
